@@ -83,7 +83,7 @@ def find_cycles(
     edges: DefaultDict[_T, Set[_T]] = util.defaultdict(set)
     for parent, child in tuples:
         edges[parent].add(child)
-    nodes_to_test = set(edges)
+    nodes_to_test = set(edges).intersection(allitems)
 
     output = set()
 
